@@ -276,6 +276,7 @@ func (c *client) SendBatch(ctx context.Context, batch []hrpc.Call) (
 	var unretryableErrorSeen bool
 	var retries []hrpc.Call
 	backoff := backoffStart
+	serverErrorCount := 0
 
 	for {
 		rpcByClient, ok := c.findClients(ctx, batch, res)
@@ -329,6 +330,18 @@ func (c *client) SendBatch(ctx context.Context, batch []hrpc.Call) (
 			if err != nil {
 				break
 			}
+		} else if hasServerError(retries, res, rpcToRes) {
+			// Like in SendRPC, retry ServerError immediately to failover fast,
+			// but start to backoff if HBase keeps sending it.
+			if serverErrorCount > 1 {
+				sp.AddEvent("retrySleep")
+				var err error
+				backoff, err = sleepAndIncreaseBackoff(ctx, backoff)
+				if err != nil {
+					break
+				}
+			}
+			serverErrorCount++
 		} else {
 			sp.AddEvent("retry")
 		}
@@ -339,6 +352,16 @@ func (c *client) SendBatch(ctx context.Context, batch []hrpc.Call) (
 	}
 
 	return res, allOK
+}
+
+// hasServerError returns true if the result of any of rpcs is a region.ServerError
+func hasServerError(rpcs []hrpc.Call, res []hrpc.RPCResult, rpcToRes map[hrpc.Call]int) bool {
+	for _, rpc := range rpcs {
+		if _, ok := res[rpcToRes[rpc]].Error.(region.ServerError); ok {
+			return true
+		}
+	}
+	return false
 }
 
 // findClients takes a batch of rpcs and discovers the region and
